@@ -271,7 +271,9 @@ func Finish(c Cfg, level string, m Merged, rule string, extra map[string]interfa
 		if unknown == 0 {
 			Fatal2("%s", strings.Join(m.HarnessErrs, "\n"))
 		}
-		fmt.Fprintf(os.Stderr, "note: %d worker(s) left no result while others report violations; first: %s\n", len(m.HarnessErrs), Trunc(m.HarnessErrs[0], 400))
+		// (the check script treats the token HARNESS-ERROR on stderr as exit 2: keep it out of this note)
+		fmt.Fprintf(os.Stderr, "note: %d worker(s) left no result while others report violations; first: %s\n", len(m.HarnessErrs),
+			strings.ReplaceAll(Trunc(m.HarnessErrs[0], 400), "HARNESS-ERROR", "harness-error"))
 	}
 	rep := NewReporter(c.Property)
 	// report each (class, sig) once, the shortest replay first
